@@ -134,7 +134,17 @@ impl Session {
 /// limits inside the normal domain D
 pub fn gen_lim_d(rng: &mut Rng) -> Lim {
     loop {
-        let l = match rng.below(10) {
+        let l = match rng.below(12) {
+            10 | 11 => {
+                // exact quotients: count divides period*1e9 (where float rounding slips show first)
+                let p = rng.range(1, 120);
+                let pn = p as i128 * 1_000_000_000;
+                let mut c = rng.pick(&[5i64, 10, 20, 25, 40, 50, 64, 125, 160, 225, 320, 450, 640, 900, 1280, 1800, 3, 7, 11]);
+                if pn % c as i128 != 0 {
+                    c = rng.pick(&[5i64, 10, 20, 40, 50]);
+                }
+                Lim { b: rng.pick(&[1i64, 1, 2, 3]), c, p }
+            }
             0..=4 => Lim {
                 b: rng.pick(&[1i64, 1, 2, 3, 5, 10]),
                 c: rng.range(1, 20),
@@ -186,7 +196,19 @@ pub fn gen_lim_d(rng: &mut Rng) -> Lim {
 pub fn gen_lim_invalid(rng: &mut Rng) -> (Lim, i64) {
     let base = gen_lim_d(rng);
     let bad = [0i64, -1, i64::MIN, -1_000_000_007];
-    match rng.below(5) {
+    match rng.below(8) {
+        5 => {
+            // several fields invalid at once (sign combinations, products that look positive)
+            let mut l = base;
+            if rng.chance(1, 2) {
+                l.b = rng.pick(&bad);
+            }
+            l.c = rng.pick(&bad);
+            l.p = rng.pick(&bad);
+            (l, rng.pick(&[1i64, 0, 1, 2]))
+        }
+        6 => (Lim { c: rng.pick(&[-1i64, -5, i64::MIN]), p: rng.pick(&[-1i64, -50, i64::MIN]), ..base }, 1),
+        7 => (Lim { b: rng.pick(&[-1i64, -2]), c: rng.pick(&[-1i64, -3]), ..base }, rng.pick(&[1i64, -1])),
         0 => (Lim { b: rng.pick(&bad), ..base }, 1),
         1 => (Lim { c: rng.pick(&bad), ..base }, 1),
         2 => (Lim { p: rng.pick(&bad), ..base }, 1),
@@ -229,7 +251,7 @@ pub fn pick_base(rng: &mut Rng) -> i64 {
     }
 }
 
-fn gen_gap(rng: &mut Rng, lim: &Lim, next_cleanup_in: Option<i128>) -> i64 {
+fn gen_gap(rng: &mut Rng, lim: &Lim, next_cleanup_in: Option<i128>, expiry_in: Option<i128>) -> i64 {
     let e = lim.e();
     let tau = lim.tau();
     let pad = tau.max(e);
@@ -244,6 +266,12 @@ fn gen_gap(rng: &mut Rng, lim: &Lim, next_cleanup_in: Option<i128>) -> i64 {
     if let Some(d) = next_cleanup_in {
         if d >= 0 {
             cands.extend_from_slice(&[d - 1, d, d + 1, d, d + 1]);
+        }
+    }
+    if let Some(d) = expiry_in {
+        // the instant the key's stored state expires (last write + the lifetime it asked for)
+        if d >= 0 {
+            cands.extend_from_slice(&[d - 1, d, d, d, d + 1]);
         }
     }
     let g = cands[rng.below(cands.len() as u64) as usize];
@@ -265,15 +293,16 @@ pub fn run_history(rng: &mut Rng, sess: &mut Session, hp: &HistParams, out: &mut
     let keys: Vec<(String, Lim)> = (0..hp.nkeys).map(|i| (gen_key(rng, i), gen_lim_d(rng))).collect();
     let mut now = pick_base(rng);
     let mut latest = now;
-    let mut steps = Vec::with_capacity(hp.steps);
+    let mut steps: Vec<Step> = Vec::with_capacity(hp.steps);
     let mut noise_ctr = 0usize;
+    let mut expiry: std::collections::HashMap<String, i128> = std::collections::HashMap::new();
     for _ in 0..hp.steps {
         let roll = rng.below(100);
         let next_in = sess.store.field("next").map(|n| n - latest as i128);
         let rq = if roll < hp.noise_pct {
             noise_ctr += 1;
             let lim = gen_lim_d(rng);
-            let gap = gen_gap(rng, &lim, next_in);
+            let gap = gen_gap(rng, &lim, next_in, None);
             now = advance(rng, hp, &mut latest, now, gap);
             out.bump("req_noise");
             Rq { key: format!("n{noise_ctr}"), lim, q: gen_qty(rng, &lim, hp.zero_pct), now }
@@ -292,7 +321,8 @@ pub fn run_history(rng: &mut Rng, sess: &mut Session, hp: &HistParams, out: &mut
         } else {
             let (key, klim) = keys[rng.below(keys.len() as u64) as usize].clone();
             let lim = if rng.below(100) < hp.mixed_pct { gen_lim_d(rng) } else { klim };
-            let gap = gen_gap(rng, &klim, next_in);
+            let exp_in = expiry.get(&key).map(|e| *e - latest as i128);
+            let gap = gen_gap(rng, &klim, next_in, exp_in);
             now = advance(rng, hp, &mut latest, now, gap);
             let q = gen_qty(rng, &lim, hp.zero_pct);
             if q == 0 {
@@ -305,6 +335,18 @@ pub fn run_history(rng: &mut Rng, sess: &mut Session, hp: &HistParams, out: &mut
             Rq { key, lim, q, now }
         };
         let st = sess.call(&rq);
+        for op in &st.trace {
+            // remember when the state written for this key expires
+            let t: Vec<&str> = op.split(' ').collect();
+            let ttl: Option<i128> = match t[0] {
+                "cas" => t[4].parse().ok(),
+                "setnx" => t[3].parse().ok(),
+                _ => None,
+            };
+            if let Some(ttl) = ttl {
+                expiry.insert(rq.key.clone(), rq.now as i128 + ttl);
+            }
+        }
         match &st.resp {
             Resp::Ok { allowed: true, .. } => out.bump("resp_allowed"),
             Resp::Ok { allowed: false, .. } => out.bump("resp_denied"),
